@@ -10,6 +10,7 @@ install_demo() {
   case $MODE in
     append:*) cat $S/$DEMO >> ${MODE#append:} ;;
     module) cp $S/$DEMO acts/src/scheduler/tests/seed_demo.rs; echo 'mod seed_demo;' >> acts/src/scheduler/tests/mod.rs ;;
+    module:*) cp $S/$DEMO ${MODE#module:}/seed_demo.rs; echo 'mod seed_demo;' >> ${MODE#module:}/mod.rs ;;
   esac
 }
 {
